@@ -12,7 +12,9 @@ GEN_MODULES = ("Convert",)
 MIN_THEOREMS = 14
 US = D.US
 YMAX = Z.YMAX_QUICK
-ENTRIES = ("datetime", "tzconvert", "tzconvert_pdt", "tzdatetime", "set", "on", "at", "replace", "replace_fold", "parse", "local", "instance", "naivefn")
+ENTRIES = ("datetime", "tzconvert", "tzconvert_pdt", "tzdatetime", "set", "on", "at", "replace", "replace_fold", "parse", "local", "instance", "naivefn",
+           "set_partial", "replace_partial")
+FIELDS = ("year", "month", "day", "hour", "minute", "second", "microsecond")
 RULE = ("every gap and overlap of every zone enumerated from the tzdata tables (quick: up to 24 per zone to year 2100, "
         "always including Lord_Howe 30-min, Kiritimati/Apia whole-day skips, LMT second-granularity changes; thorough: all) "
         "x wall positions {lo-1us, lo, mid, hi-1us, hi} x fold x raise x entry points " + ",".join(ENTRIES) +
@@ -46,7 +48,12 @@ def _probe(rng, name, zi, irr):
                         continue
                     if e in ("tzdatetime", "local", "parse", "naivefn") and (rz or not fold):
                         continue      # these entry points have no fold/raise argument
-                    if e in ("set", "on", "at", "replace", "replace_fold", "instance") and rz:
+                    if e in ("set", "on", "at", "replace", "replace_fold", "instance", "set_partial", "replace_partial") and rz:
+                        continue
+                    if e in ("set_partial", "replace_partial"):
+                        # only some of the fields are passed: the others come from the instance
+                        for mask in {rng.choice((16, 32, 64, 48, 96, 112, 8, 24)), rng.randint(1, 127)}:
+                            yield ("create", e, str(zi), w, fold, rz, mask, rng.randrange(1 << 30))
                         continue
                     yield ("create", e, str(zi), w, fold, rz)
 
@@ -72,20 +79,24 @@ def gen_ops(rng, tier):
         zi = rng.randrange(len(D.ZN))
         w = rng.randint(D.MIN_US + 3 * 86400 * US, Z.limit_us(YMAX))
         zr = rng.choice((str(zi), str(zi), "f%d" % (rng.randint(-86399, 86399) * US), "n", "f0"))
-        e = rng.choice(("datetime", "set", "replace", "replace_fold", "tzconvert", "tzconvert_pdt") if zr != "n" else ("naivefn",))
+        e = rng.choice(("datetime", "set", "replace", "replace_fold", "tzconvert", "tzconvert_pdt", "set_partial", "replace_partial")
+                       if zr != "n" else ("naivefn",))
         fold = rng.randint(0, 1)
+        if e in ("set_partial", "replace_partial"):
+            yield ("create", e, zr, w, fold, 0, rng.randint(1, 127), rng.randrange(1 << 30))
+            continue
         yield ("create", e, zr, w, fold if e != "naivefn" else 1, 0)
 
 
 def _mfold(op):
-    _, e, zr, w, fold, rz = op
+    _, e, zr, w, fold, rz = op[:6]
     if e in ("tzdatetime", "local", "parse", "naivefn"):
         return 1, 0
     return fold, rz
 
 
 def line(op, backend):
-    _, e, zr, w, fold, rz = op
+    _, e, zr, w, fold, rz = op[:6]
     f, r = _mfold(op)
     return "%s %s %d %d %d" % ("createp" if e == "tzconvert_pdt" else "create", zr, w, f, r)
 
@@ -113,9 +124,34 @@ def _regular_base(zr, w, fold):
     return None, None
 
 
+def _partial_base(zr, w, fold, mask, salt):
+    """a valid DateTime in the zone that differs from the wall value w exactly in (some of) the fields selected by mask"""
+    import calendar
+    import random
+    p = _P["p"]
+    rng = random.Random(salt)
+    name = D.zname(zr)
+    f = list(D.fields(w))
+    for _ in range(40):
+        g = list(f)
+        for i in range(7):
+            if mask >> i & 1:
+                g[i] = (rng.randint(max(2, f[0] - 3), min(YMAX - 1, f[0] + 3)), rng.randint(1, 12), rng.randint(1, 28), rng.randint(0, 23),
+                        rng.randint(0, 59), rng.randint(0, 59), rng.choice((0, 1, 999999, rng.randint(0, 999999))))[i]
+        if g[2] > calendar.monthrange(g[0], g[1])[1]:
+            continue
+        b = Z.to_us(dt.datetime(*g))
+        if name is not None and len(D.wall_solutions(name, b, YMAX)) != 1:
+            continue
+        if not (D.MIN_US + 2 * 86400 * US < b < Z.limit_us(YMAX)):
+            continue
+        return p.DateTime(*g, tzinfo=D.tzobj(zr), fold=fold)
+    return None
+
+
 def impl(op, backend):
     p = _P["p"]
-    _, e, zr, w, fold, rz = op
+    _, e, zr, w, fold, rz = op[:6]
     tz = D.tzobj(zr)
     f = D.fields(w)
     try:
@@ -147,6 +183,13 @@ def impl(op, backend):
             if base is None:
                 return "skip"
             r = base.replace(year=f[0], month=f[1], day=f[2], hour=f[3], minute=f[4], second=f[5], microsecond=f[6], fold=fold)
+        elif e in ("set_partial", "replace_partial"):
+            mask, salt = op[6], op[7]
+            base = _partial_base(zr, w, fold, mask, salt)
+            if base is None:
+                return "skip"
+            kw = {FIELDS[i]: f[i] for i in range(7) if mask >> i & 1}
+            r = base.set(**kw) if e == "set_partial" else base.replace(**kw)
         elif e in ("set", "replace"):
             base, _ = _regular_base(zr, w, fold)
             if base is None:
@@ -188,7 +231,7 @@ def impl(op, backend):
 
 def oracle(op, out, backend):
     """independent statement of C02: classify the wall value from the tz table only"""
-    _, e, zr, w, fold, rz = op
+    _, e, zr, w, fold, rz = op[:6]
     if out == "skip":
         return None
     f, r = _mfold(op)
@@ -237,7 +280,7 @@ def oracle(op, out, backend):
 
 
 def tag(op, out):
-    _, e, zr, w, fold, rz = op
+    _, e, zr, w, fold, rz = op[:6]
     if zr[0] in "nf":
         return "plain:" + ("naive" if zr == "n" else "fixed")
     n = len(D.wall_solutions(D.zname(zr), w, YMAX))
